@@ -33,6 +33,13 @@
              reachable from a loop) is dominated by `name not in REG`, records `name` in REG on the same
              path, and REG is only ever grown after the constructor (no clear / discard / re-creation
              while the resampler keeps its series) - else every tick is delivered twice on that series.
+  C07.PAIR   add_timeseries() / remove_timeseries() are synchronous writers of the registry and run while a tick is
+             suspended in its sweep, so after the sweep's await the registry is not the collection the sweep iterated:
+             nothing the tick (or a helper that is handed the results) executes after the await combines the results
+             with a read of self._resamplers (enumerate / zip / len / lookup, an alias of it or of a view, a snapshot
+             taken after the await) - else IndexError out of resample() ends the loop for all series, or positions
+             shift.  Results are paired with the snapshot the sweep iterated, or not at all.  A sequential sweep does
+             not iterate the live registry across its awaits either.
   C07.CONF   every construction site of Resampler in the package passes the configuration its owner
              was handed (a parameter, or an attribute only ever assigned from a constructor
              parameter): the grid is the caller's align_to + k * period.
@@ -917,8 +924,14 @@ def _gather_domain(g: ast.Call) -> tuple[ast.AST, str] | None:
 
 
 def _gather_ok(g: ast.Call) -> bool:
+    """The one gather of a tick ranges over every registered series: over the live view `self._resamplers.values()` /
+    `.items()` (read at one instant, when the argument list is built) or over a snapshot (list / tuple) of it taken
+    in the tick - the path walker has substituted the tick's own bindings, a snapshot taken before the tick loop
+    stays a bare name and is not accepted (series added later would never be served)."""
     d = _gather_domain(g)
-    return d is not None and len(g.args) == 1 and u(d[0]) == f"self._resamplers.{d[1]}()"
+    if d is None or len(g.args) != 1:
+        return False
+    return u(d[0]) == f"self._resamplers.{d[1]}()" or _snapshot_kind(d[0]) == d[1]
 
 
 # ------------------------------------------------------------------------------ the batched sweep of a tick
@@ -1202,8 +1215,245 @@ def check_same(run: Run, prog: Program) -> None:
               path=bad.describe() if bad else None)
 
 
+# ---------------------------------------------------------------------------------------------- C07.PAIR
+REG = "self._resamplers"
+_LIVE_VIEWS = (REG, f"{REG}.values()", f"{REG}.items()", f"{REG}.keys()")
+
+
+def _loaded_names(n: ast.AST) -> set[str]:
+    return {x.id for x in ast.walk(n) if isinstance(x, ast.Name) and isinstance(x.ctx, ast.Load)}
+
+
+def _stored_names(n: ast.AST) -> set[str]:
+    out = {x.id for x in ast.walk(n) if isinstance(x, ast.Name) and isinstance(x.ctx, (ast.Store, ast.Del))}
+    # a local container filled in place (`results.append(...)`, `results += ...`) is written as well
+    out |= {x.func.value.id for x in ast.walk(n) if isinstance(x, ast.Call) and isinstance(x.func, ast.Attribute)
+            and isinstance(x.func.value, ast.Name) and x.func.attr in ("append", "extend", "add", "update", "insert",
+                                                                       "setdefault", "appendleft")}
+    return out
+
+
+class _PairScan:
+    """Taint scan of the statements a tick executes after the sweep's await.
+
+    R = names that hold (something computed from) the results of the sweep; L = the live registry as it is AFTER
+    the await: every read of `self._resamplers`, of a name bound to it or to one of its views (an alias, not a
+    copy), or of a name computed from such a read after the await.  add_timeseries() / remove_timeseries() are
+    synchronous writers of the registry and run while the tick is suspended in the sweep, so L is not the
+    collection the sweep iterated: a construct that reads L and R together pairs the results with other series."""
+
+    def __init__(self, run: Run, prog: Program, fn: Any, live_alias: set[str]) -> None:
+        self.run, self.prog, self.fn = run, prog, fn
+        self.follow = follower(prog, fn)
+        self.alias = live_alias
+        self.found = 0
+        self.seen_helpers: set[int] = set()
+
+    # -- sources
+    def live_reads(self, n: ast.AST, L: set[str]) -> list[ast.AST]:
+        out: list[ast.AST] = []
+        for x in ast.walk(n):
+            if isinstance(x, ast.Attribute) and isinstance(x.ctx, ast.Load) and u(x) == REG:
+                out.append(x)
+            elif isinstance(x, ast.Name) and isinstance(x.ctx, ast.Load) and (x.id in L or x.id in self.alias):
+                out.append(x)
+        return out
+
+    def report(self, where: Any, root: ast.AST, reads: list[ast.AST], R: set[str], how: str) -> None:
+        from ..engine.resolver import parent_map
+
+        pm = parent_map(root)
+        x = reads[0]
+        # name the construct that walks / measures / indexes the live registry: enumerate(self._resamplers), ...
+        top: ast.AST = x
+        while True:
+            par = pm.get(top)
+            if isinstance(par, ast.Attribute) and par.value is top:
+                top = par
+            elif isinstance(par, ast.Call) and (par.func is top or top in par.args) and not (_loaded_names(par) & R):
+                top = par
+            elif isinstance(par, ast.Subscript) and par.value is top:
+                top = par
+            else:
+                break
+        used = sorted(_loaded_names(root) & R)
+        self.found += 1
+        self.run.violation(
+            "C07.PAIR", where.qual, f"{u(top)[:90]}  paired with  {', '.join(used)[:40]}",
+            f"after the await of the tick's sweep, `{u(top)[:90]}` reads the live registry of series and {how} the results "
+            f"of that sweep (`{', '.join(used)}`).  The registry is not the collection the sweep iterated any more: "
+            "add_timeseries() / remove_timeseries() are synchronous and run while the tick is suspended waiting for a slow "
+            "sink.  With a series added meanwhile, positional pairing (`results[i]` with i from an enumeration of the "
+            "registry) raises IndexError out of resample() - the resampling loop ends for ALL series, every later tick is "
+            "skipped; with one removed, the positions shift and a failure is attributed to another source (the owner then "
+            "removes a healthy series).  Pair the results with the SAME snapshot the sweep iterated (taken before the "
+            "await; `zip(snapshot, results)` / `enumerate(snapshot)`), or collect errors inside the per-series coroutine.  "
+            "Excluded alike: `zip(self._resamplers, results)`, `len(results) != len(self._resamplers)`, a snapshot taken "
+            "only after the await, an alias (not a copy) of the registry or of one of its views, "
+            "`self._resamplers[source]` looked up for a result after the await, the same inside a helper that is handed "
+            "the results", node=x if hasattr(x, "lineno") else root, file=where.file)
+
+    # -- statements
+    def both(self, where: Any, s: ast.AST, parts: list[ast.AST], R: set[str], L: set[str], how: str) -> bool:
+        reads = [r for part in parts for r in self.live_reads(part, L)]
+        if reads and any(_loaded_names(part) & R for part in parts):
+            self.report(where, s, reads, R, how)
+            return True
+        return False
+
+    def calls_into(self, where: Any, s: ast.AST, R: set[str], L: set[str], depth: int) -> None:
+        """A private helper that is handed the results: its body is part of the tick after the await."""
+        for c in [x for x in ast.walk(s) if isinstance(x, ast.Call)]:
+            tgt = self.follow(c)
+            if tgt is None or id(tgt) in self.seen_helpers or depth >= 3:
+                continue
+            params = [a.arg for a in tgt.args.posonlyargs + tgt.args.args]
+            if params and params[0] in ("self", "cls") and isinstance(c.func, ast.Attribute):
+                params = params[1:]
+            bind = dict(zip(params, c.args))
+            bind.update({k.arg: k.value for k in c.keywords if k.arg})
+            r2 = {p_ for p_, a in bind.items() if _loaded_names(a) & R}
+            l2 = {p_ for p_, a in bind.items() if self.live_reads(a, L)}
+            if not r2:
+                continue
+            self.seen_helpers.add(id(tgt))
+            info = next((f for f in self.prog.all_functions() if f.node is tgt), where)
+            self.block(info, list(tgt.body), r2, l2, depth + 1)
+
+    def block(self, where: Any, stmts: list[ast.stmt], R: set[str], L: set[str], depth: int = 0) -> None:  # noqa: C901
+        for s in stmts:
+            if isinstance(s, (ast.FunctionDef, ast.AsyncFunctionDef, ast.ClassDef)):
+                continue
+            if isinstance(s, (ast.For, ast.AsyncFor)):
+                hasR, hasL = bool(_loaded_names(s.iter) & R), bool(self.live_reads(s.iter, L))
+                if not self.both(where, s, [s.iter], R, L, "walks it together with"):
+                    body = ast.Module(body=s.body + s.orelse, type_ignores=[])
+                    if hasL and _loaded_names(body) & R:
+                        self.report(where, s, self.live_reads(s.iter, L), R, "walks it while the loop body picks from")
+                    elif hasR and self.live_reads(body, L):
+                        self.report(where, s, self.live_reads(body, L), R, "looks it up for each of")
+                tg = _stored_names(s.target)
+                R |= tg if hasR else set()
+                L |= tg if hasL and not hasR else set()
+                self.calls_into(where, s.iter, R, L, depth)
+                self.block(where, s.body, R, L, depth)
+                self.block(where, s.orelse, R, L, depth)
+            elif isinstance(s, (ast.If, ast.While)):
+                self.both(where, s, [s.test], R, L, "compares it with")
+                self.calls_into(where, s.test, R, L, depth)
+                self.block(where, s.body, R, L, depth)
+                self.block(where, s.orelse, R, L, depth)
+            elif isinstance(s, (ast.With, ast.AsyncWith)):
+                for it in s.items:
+                    self.both(where, s, [it.context_expr], R, L, "uses it together with")
+                self.block(where, s.body, R, L, depth)
+            elif isinstance(s, ast.Try):
+                self.block(where, s.body, R, L, depth)
+                for h in s.handlers:
+                    self.block(where, h.body, R, L, depth)
+                self.block(where, s.orelse, R, L, depth)
+                self.block(where, s.finalbody, R, L, depth)
+            elif isinstance(s, ast.Match):
+                for c in s.cases:
+                    self.block(where, c.body, R, L, depth)
+            else:
+                hasR, hasL = bool(_loaded_names(s) & R), bool(self.live_reads(s, L))
+                self.both(where, s, [s], R, L, "pairs it with")
+                self.calls_into(where, s, R, L, depth)
+                st = _stored_names(s)
+                if hasR:
+                    R |= st
+                elif hasL:
+                    L |= st
+                else:
+                    R -= st     # re-bound to something unrelated
+                    L -= st
+
+
+def check_pair(run: Run, prog: Program) -> None:
+    """Whatever pairs the results of a tick's sweep with the series they belong to uses the collection the sweep
+    iterated (one snapshot taken before the await), never the registry as it is after the await."""
+    fn = prog.func(f"{RES}.resample")
+    node = inline_helpers(prog, fn)
+    loops = _timer_loops(node)
+    if len(loops) != 1:
+        raise AnalysisError(f"{fn.qual}: timer loop not found")
+    live_alias = {t.id for st in ast.walk(node) if isinstance(st, (ast.Assign, ast.AnnAssign)) and st.value is not None
+                  and u(st.value) in _LIVE_VIEWS
+                  for t in (st.targets if isinstance(st, ast.Assign) else [st.target]) if isinstance(t, ast.Name)}
+    scan = _PairScan(run, prog, fn, live_alias)
+
+    def resamples(n: ast.AST) -> bool:
+        return any(isinstance(c, ast.Call) and isinstance(c.func, ast.Attribute) and c.func.attr == "resample"
+                   for c in ast.walk(n))
+
+    def domains(s: ast.AST) -> list[ast.AST]:
+        """What the gathers of the sweep's statement range over (whatever they hand to the series: C07.SAME)."""
+        return [gen.iter for g in ast.walk(s) if _is_gather(g) for a in g.args  # type: ignore[attr-defined]
+                if isinstance(a, ast.Starred) and isinstance(a.value, (ast.ListComp, ast.GeneratorExp))
+                for gen in a.value.generators]
+
+    def is_sweep(s: ast.stmt) -> bool:
+        if isinstance(s, (ast.For, ast.AsyncFor, ast.While)):
+            return resamples(s)
+        if isinstance(s, (ast.If, ast.With, ast.AsyncWith, ast.Try, ast.Match)):
+            return False
+        return any(_is_gather(n) for n in ast.walk(s))     # the gather of a tick is its sweep (as in _sweeps)
+
+    state = {"after": False}
+
+    def walk(stmts: list[ast.stmt], R: set[str], L: set[str]) -> None:
+        """Program order: statements before the sweep are skipped, the sweep starts the scan, what follows it (in the
+        same suite and in the suites around it) is scanned."""
+        i = 0
+        while i < len(stmts):
+            s = stmts[i]
+            if state["after"]:
+                scan.block(fn, stmts[i:], R, L)
+                return
+            if is_sweep(s):
+                state["after"] = True
+                R |= _stored_names(s)
+                # within the sweep's own statement the registry is read once, as the domain of the sweep
+                doms = [id(x) for d in domains(s) for x in ast.walk(d)]
+                if isinstance(s, (ast.For, ast.AsyncFor)):
+                    doms += [id(x) for x in ast.walk(s.iter)]
+                extra = [x for x in scan.live_reads(s, L) if id(x) not in doms]
+                if extra and not isinstance(s, (ast.For, ast.AsyncFor, ast.While)):
+                    scan.report(fn, s, extra, R | _loaded_names(s), "pairs it in the same statement with")
+                if isinstance(s, (ast.For, ast.AsyncFor)) and any(isinstance(n, ast.Await) for b in s.body for n in ast.walk(b)) \
+                        and u(s.iter) in _LIVE_VIEWS + tuple(live_alias):
+                    scan.found += 1
+                    run.violation("C07.PAIR", fn.qual, f"for {u(s.target)} in {u(s.iter)}: ... await ...",
+                                  f"the sequential sweep of a tick iterates the live registry (`{u(s.iter)}`) across its awaits: "
+                                  "add_timeseries() / remove_timeseries() run while an iteration waits for its sink, and the "
+                                  "next step of the iteration raises RuntimeError (dictionary changed size during iteration) "
+                                  "out of resample() before `_window_end` advances - the loop ends for all series.  Iterate a "
+                                  "snapshot taken before the first await (`list(self._resamplers.values())`)",
+                                  node=s, file=fn.file)
+            else:
+                suites = [getattr(s, f) for f in ("body", "orelse") if isinstance(getattr(s, f, None), list)]
+                suites += [h.body for h in getattr(s, "handlers", []) or []] + [getattr(s, "finalbody", None) or []]
+                for sub in suites:
+                    if sub and isinstance(sub[0], ast.stmt):
+                        if state["after"]:
+                            scan.block(fn, sub, R, L)    # the rest of the statement that holds the sweep
+                        else:
+                            walk(sub, R, L)
+            i += 1
+
+    walk(list(loops[0].body), set(), set())
+    if not state["after"]:
+        if run.violations:
+            return      # the shape of the sweep is already reported (C07.SAME / C07.STEP)
+        raise AnalysisError(f"{fn.qual}: the sweep of a tick was not found (C07.PAIR)")
+    if not scan.found:
+        run.ok("C07.PAIR", f"{fn.qual}: after the sweep's await the results are never combined with the live registry "
+               "(they are paired with the snapshot the sweep iterated, or not paired at all)")
+
+
 _ONE_GATHER = ("            results = await asyncio.gather(\n"
-               "                *[r.resample(self._window_end) for r in self._resamplers.values()],\n"
+               "                *[r.resample(self._window_end) for _, r in resampled],\n"
                "                return_exceptions=True,\n            )\n")
 _BATCHED = ("            series = list(self._resamplers.values())\n            results = []\n"
             "            for start in range(0, max(len(series), 1), 64):\n"
@@ -1223,8 +1473,7 @@ CONTROLS = [
     ("gather raises on the first failing series", MOD, "                return_exceptions=True,\n",
      "                return_exceptions=False,\n", "C07.STEP"),
     ("sequential sweep left at the first failing series", MOD,
-     "            results = await asyncio.gather(\n                *[r.resample(self._window_end) for r in self._resamplers.values()],\n"
-     "                return_exceptions=True,\n            )\n",
+     _ONE_GATHER,
      "            results = []\n            for r in list(self._resamplers.values()):\n                try:\n"
      "                    results.append(await r.resample(self._window_end))\n                except Exception as err:\n"
      "                    results.append(err)\n                    break\n", "C07.STEP"),
@@ -1236,6 +1485,11 @@ CONTROLS = [
      "        async for drift in self._timer:\n",
      "        self._window_end = max(self._window_end, self._calculate_window_end()[0])\n"
      "        async for drift in self._timer:\n", "C07.STEP"),
+    ("results paired with a fresh enumeration of the registry after the await (F22)", MOD,
+     "                    for i, (source, _) in enumerate(resampled)\n",
+     "                    for i, source in enumerate(self._resamplers)\n", "C07.PAIR"),
+    ("results paired with a snapshot of the registry taken only after the await", MOD,
+     " in enumerate(resampled)\n", " in enumerate(list(self._resamplers.items()))\n", "C07.PAIR"),
     ("batched sweep advancing once per batch", MOD, _ONE_GATHER + "\n            self._window_end += self._config.resampling_period\n",
      _BATCHED + "                self._window_end += self._config.resampling_period\n", "C07.STEP"),
     ("batched sweep with mismatched slice width", MOD, _ONE_GATHER,
@@ -1264,6 +1518,7 @@ def run_rules(run: Run, prog: Program) -> None:
     check_one(run, prog)
     check_once(run, prog)
     check_conf(run, prog)
+    check_pair(run, prog)
 
 
 def check(run: Run, prog: Program, tier: str) -> str:
@@ -1276,6 +1531,9 @@ def check(run: Run, prog: Program, tier: str) -> str:
              "cannot raise for a failing series (return_exceptions=True); the timer triggers all missed ticks")
     run.rule("C07.SAME", "all series of a tick get self._window_end and emit it unchanged (one gather over all series, "
              "its sequential spelling, or batches that partition one snapshot of all series)")
+    run.rule("C07.PAIR", "after the await of a tick's sweep its results are never combined with the live registry of "
+             "series (fresh iteration / enumeration / len / lookup of self._resamplers, an alias of it, a snapshot taken "
+             "after the await): they are paired with the snapshot the sweep iterated, or not paired at all")
     run.rule("C07.ONE", "Resampler.resample() is started only by the actor's supervising loop and only when the "
              "previous resampling task is absent or finished; the task variable is only reset when finished")
     run.rule("C07.ONCE", "a series is handed to Resampler.add_timeseries at most once while registered: a call site "
@@ -1287,6 +1545,7 @@ def check(run: Run, prog: Program, tier: str) -> str:
     run.floor("C07.SAME", 4)
     run.floor("C07.ONE", 3)
     run.floor("C07.ONCE", 3)
+    run.floor("C07.PAIR", 1)
     from ..engine.controls import run_controls
 
     run_controls(run, CONTROLS, run_rules, tier)
